@@ -159,3 +159,941 @@ vk_harness!(c08_negate, {
     vk_cover!(got.is_ok(), "reach: negate ok");
     expect_exact_or_overflow(got, -(n as i32));
 });
+
+// ---------------------------------------------------------------------------------------------------------------
+// C02: operator x operand-type matrix. Oracle = the manual's promotion rules (ch.1 "Expressions and Types"):
+// Integer -> Single -> Double as needed; '/' on two Integers is computed in Single; '\', MOD and the logical operators work on
+// floor-converted 16-bit Integers; relational operators yield Integer 0 or -1.
+
+#[derive(Clone, Copy)]
+pub(crate) enum N {
+    I(i16),
+    S(f32),
+    D(f64),
+}
+pub(crate) fn any_n() -> N {
+    match vk::any_below(3) {
+        0 => N::I(vk::any_i16()),
+        1 => N::S(vk::any_f32()),
+        _ => N::D(vk::any_f64()),
+    }
+}
+impl N {
+    pub(crate) fn val(self) -> Val {
+        match self {
+            N::I(n) => Val::Integer(n),
+            N::S(n) => Val::Single(n),
+            N::D(n) => Val::Double(n),
+        }
+    }
+    fn rank(self) -> u8 {
+        match self {
+            N::I(_) => 0,
+            N::S(_) => 1,
+            N::D(_) => 2,
+        }
+    }
+    fn f32(self) -> f32 {
+        match self {
+            N::I(n) => n as f32,
+            N::S(n) => n,
+            N::D(n) => n as f32,
+        }
+    }
+    fn f64(self) -> f64 {
+        match self {
+            N::I(n) => n as f64,
+            N::S(n) => n as f64,
+            N::D(n) => n,
+        }
+    }
+    /// the documented conversion to a 16-bit Integer: floor, then range check
+    fn int(self) -> Option<i16> {
+        match self {
+            N::I(n) => Some(n),
+            N::S(x) => {
+                if x >= -32768.0 && x < 32768.0 {
+                    Some(x.floor() as i16)
+                } else {
+                    None
+                }
+            }
+            N::D(x) => {
+                if x >= -32768.0 && x < 32768.0 {
+                    Some(x.floor() as i16)
+                } else {
+                    None
+                }
+            }
+        }
+    }
+}
+fn same32(a: f32, b: f32) -> bool {
+    a.to_bits() == b.to_bits() || (a.is_nan() && b.is_nan())
+}
+fn same64(a: f64, b: f64) -> bool {
+    a.to_bits() == b.to_bits() || (a.is_nan() && b.is_nan())
+}
+
+/// `+ - *`: result type is the wider operand type; value is the operation carried out at that type.
+fn check_arith(got: Result<Val>, l: N, r: N, s: f32, d: f64) {
+    let rank = if l.rank() > r.rank() { l.rank() } else { r.rank() };
+    match (rank, got) {
+        (0, Ok(Val::Integer(_))) => {}
+        (0, Err(e)) => vk_check!(ec::code_of(&e) == ec::OVERFLOW, "C02: Integer op Integer may only fail with OVERFLOW"),
+        (1, Ok(Val::Single(x))) => vk_check!(same32(x, s), "C02: mixed Integer/Single arithmetic must be carried out in Single"),
+        (2, Ok(Val::Double(x))) => vk_check!(same64(x, d), "C02: arithmetic with a Double operand must be carried out in Double"),
+        _ => vk_check!(false, "C02: result type is not the promoted operand type"),
+    }
+}
+
+/// One (left type, right type) pair per harness for `+ - * / \\ MOD`: one symbolic adder/multiplier/divider pair per query is what
+/// CaDiCaL finishes quickly; the whole 3x3 matrix in one query takes minutes (sum, subtract) or does not finish (multiply, divide).
+fn any_of(kind: u8) -> N {
+    match kind {
+        0 => N::I(vk::any_i16()),
+        1 => N::S(vk::any_f32()),
+        _ => N::D(vk::any_f64()),
+    }
+}
+fn check_divide(got: Result<Val>, l: N, r: N) {
+    let rank = if l.rank() > r.rank() { l.rank() } else { r.rank() };
+    match (rank, got) {
+        // '/' on two Integers promotes both to Single first (manual ch.1); never an error (10/0 = inf)
+        (0, Ok(Val::Single(x))) | (1, Ok(Val::Single(x))) => {
+            vk_check!(same32(x, l.f32() / r.f32()), "C02: '/' without a Double operand must be computed in Single")
+        }
+        (2, Ok(Val::Double(x))) => vk_check!(same64(x, l.f64() / r.f64()), "C02: '/' with a Double operand must be computed in Double"),
+        _ => vk_check!(false, "C02: '/' result type is not the documented one"),
+    }
+}
+const DIVISORS: [i16; 5] = [0, 1, -2, 3, 10];
+fn divisor_of(kind: u8, i: usize) -> N {
+    match kind {
+        0 => N::I(DIVISORS[i]),
+        1 => N::S(DIVISORS[i] as f32 + if i >= 3 { 0.5 } else { 0.0 }),
+        _ => N::D(DIVISORS[i] as f64 + if i >= 3 { 0.25 } else { 0.0 }),
+    }
+}
+fn ref_divint(a: i16, b: i16) -> Option<i16> {
+    let q = (a as i32) / (b as i32);
+    if q > 32767 {
+        None
+    } else {
+        Some(q as i16)
+    }
+}
+fn ref_rem(a: i16, b: i16) -> Option<i16> {
+    Some(((a as i32) % (b as i32)) as i16)
+}
+macro_rules! pair_harness {
+    ($sum:ident, $sub:ident, $mul:ident, $div:ident, $divint:ident, $rem:ident, $lk:expr, $rk:expr) => {
+        vk_harness!($sum, {
+            let (l, r) = (any_of($lk), any_of($rk));
+            let got = Operation::sum(l.val(), r.val());
+            vk_cover!(got.is_ok(), "reach: sum pair");
+            check_arith(got, l, r, l.f32() + r.f32(), l.f64() + r.f64());
+        });
+        vk_harness!($sub, {
+            let (l, r) = (any_of($lk), any_of($rk));
+            let got = Operation::subtract(l.val(), r.val());
+            vk_cover!(got.is_ok(), "reach: subtract pair");
+            check_arith(got, l, r, l.f32() - r.f32(), l.f64() - r.f64());
+        });
+        vk_harness!($mul, {
+            let (l, r) = (any_of($lk), any_of($rk));
+            let got = Operation::multiply(l.val(), r.val());
+            vk_cover!(got.is_ok(), "reach: multiply pair");
+            check_arith(got, l, r, l.f32() * r.f32(), l.f64() * r.f64());
+        });
+        vk_harness!($div, {
+            // symbolic dividend, divisor drawn from a concrete set (a symbolic-by-symbolic float divider pair does not
+            // finish: measured > 600 s even in f32); the divisor set is part of the bound
+            let l = any_of($lk);
+            let mut i = 0;
+            while i < DIVISORS.len() {
+                let r = divisor_of($rk, i);
+                let got = Operation::divide(l.val(), r.val());
+                vk_cover!(got.is_ok(), "reach: divide pair");
+                check_divide(got, l, r);
+                i += 1;
+            }
+        });
+        vk_harness!($divint, {
+            let (l, r) = (any_of($lk), any_of($rk));
+            let got = Operation::divint(l.val(), r.val());
+            vk_cover!(got.is_ok(), "reach: divint pair ok");
+            vk_cover!(got.is_err(), "reach: divint pair err");
+            check_int_op(got, l, r, ref_divint, true);
+        });
+        vk_harness!($rem, {
+            let (l, r) = (any_of($lk), any_of($rk));
+            let got = Operation::remainder(l.val(), r.val());
+            vk_cover!(got.is_ok(), "reach: remainder pair ok");
+            vk_cover!(got.is_err(), "reach: remainder pair err");
+            check_int_op(got, l, r, ref_rem, true);
+        });
+    };
+}
+//@ prop: C02
+//@ tier: quick
+//@ unwind: 2
+//@ encodes: Operation::sum (Integer,Integer arm)
+//@ bounds: all bit patterns of both operands
+//@ harness: c02_sum_ii
+//@ prop: C02
+//@ tier: quick
+//@ unwind: 2
+//@ encodes: Operation::subtract (Integer,Integer arm)
+//@ bounds: all bit patterns of both operands
+//@ harness: c02_subtract_ii
+//@ prop: C02
+//@ tier: quick
+//@ unwind: 2
+//@ encodes: Operation::multiply (Integer,Integer arm)
+//@ bounds: all bit patterns of both operands
+//@ harness: c02_multiply_ii
+//@ prop: C02
+//@ tier: thorough
+//@ unwind: 7
+//@ encodes: Operation::divide (Integer,Integer arm)
+//@ bounds: dividend: all bit patterns; divisor: the 5 concrete values 0, 1, -2, 3(.5/.25), 10(.5/.25) of the right type
+//@ harness: c02_divide_ii
+//@ prop: C02
+//@ tier: thorough
+//@ unwind: 2
+//@ encodes: Operation::divint; <i16 as TryFrom<Val>>::try_from (Integer,Integer arm)
+//@ bounds: all bit patterns of both operands
+//@ harness: c02_divint_ii
+//@ prop: C02
+//@ tier: thorough
+//@ unwind: 2
+//@ encodes: Operation::remainder; <i16 as TryFrom<Val>>::try_from (Integer,Integer arm)
+//@ bounds: all bit patterns of both operands
+//@ harness: c02_remainder_ii
+pair_harness!(c02_sum_ii, c02_subtract_ii, c02_multiply_ii, c02_divide_ii, c02_divint_ii, c02_remainder_ii, 0, 0);
+
+//@ prop: C02
+//@ tier: quick
+//@ unwind: 2
+//@ encodes: Operation::sum (Integer,Single arm)
+//@ bounds: all bit patterns of both operands
+//@ harness: c02_sum_is
+//@ prop: C02
+//@ tier: quick
+//@ unwind: 2
+//@ encodes: Operation::subtract (Integer,Single arm)
+//@ bounds: all bit patterns of both operands
+//@ harness: c02_subtract_is
+//@ prop: C02
+//@ tier: quick
+//@ unwind: 2
+//@ encodes: Operation::multiply (Integer,Single arm)
+//@ bounds: all bit patterns of both operands
+//@ harness: c02_multiply_is
+//@ prop: C02
+//@ tier: thorough
+//@ unwind: 7
+//@ encodes: Operation::divide (Integer,Single arm)
+//@ bounds: dividend: all bit patterns; divisor: the 5 concrete values 0, 1, -2, 3(.5/.25), 10(.5/.25) of the right type
+//@ harness: c02_divide_is
+//@ prop: C02
+//@ tier: thorough
+//@ unwind: 2
+//@ encodes: Operation::divint; <i16 as TryFrom<Val>>::try_from (Integer,Single arm)
+//@ bounds: all bit patterns of both operands
+//@ harness: c02_divint_is
+//@ prop: C02
+//@ tier: thorough
+//@ unwind: 2
+//@ encodes: Operation::remainder; <i16 as TryFrom<Val>>::try_from (Integer,Single arm)
+//@ bounds: all bit patterns of both operands
+//@ harness: c02_remainder_is
+pair_harness!(c02_sum_is, c02_subtract_is, c02_multiply_is, c02_divide_is, c02_divint_is, c02_remainder_is, 0, 1);
+
+//@ prop: C02
+//@ tier: quick
+//@ unwind: 2
+//@ encodes: Operation::sum (Integer,Double arm)
+//@ bounds: all bit patterns of both operands
+//@ harness: c02_sum_id
+//@ prop: C02
+//@ tier: quick
+//@ unwind: 2
+//@ encodes: Operation::subtract (Integer,Double arm)
+//@ bounds: all bit patterns of both operands
+//@ harness: c02_subtract_id
+//@ prop: C02
+//@ tier: thorough
+//@ unwind: 2
+//@ encodes: Operation::multiply (Integer,Double arm)
+//@ bounds: all bit patterns of both operands
+//@ harness: c02_multiply_id
+//@ prop: C02
+//@ tier: thorough
+//@ unwind: 7
+//@ encodes: Operation::divide (Integer,Double arm)
+//@ bounds: dividend: all bit patterns; divisor: the 5 concrete values 0, 1, -2, 3(.5/.25), 10(.5/.25) of the right type
+//@ harness: c02_divide_id
+//@ prop: C02
+//@ tier: thorough
+//@ unwind: 2
+//@ encodes: Operation::divint; <i16 as TryFrom<Val>>::try_from (Integer,Double arm)
+//@ bounds: all bit patterns of both operands
+//@ harness: c02_divint_id
+//@ prop: C02
+//@ tier: thorough
+//@ unwind: 2
+//@ encodes: Operation::remainder; <i16 as TryFrom<Val>>::try_from (Integer,Double arm)
+//@ bounds: all bit patterns of both operands
+//@ harness: c02_remainder_id
+pair_harness!(c02_sum_id, c02_subtract_id, c02_multiply_id, c02_divide_id, c02_divint_id, c02_remainder_id, 0, 2);
+
+//@ prop: C02
+//@ tier: quick
+//@ unwind: 2
+//@ encodes: Operation::sum (Single,Integer arm)
+//@ bounds: all bit patterns of both operands
+//@ harness: c02_sum_si
+//@ prop: C02
+//@ tier: quick
+//@ unwind: 2
+//@ encodes: Operation::subtract (Single,Integer arm)
+//@ bounds: all bit patterns of both operands
+//@ harness: c02_subtract_si
+//@ prop: C02
+//@ tier: quick
+//@ unwind: 2
+//@ encodes: Operation::multiply (Single,Integer arm)
+//@ bounds: all bit patterns of both operands
+//@ harness: c02_multiply_si
+//@ prop: C02
+//@ tier: thorough
+//@ unwind: 7
+//@ encodes: Operation::divide (Single,Integer arm)
+//@ bounds: dividend: all bit patterns; divisor: the 5 concrete values 0, 1, -2, 3(.5/.25), 10(.5/.25) of the right type
+//@ harness: c02_divide_si
+//@ prop: C02
+//@ tier: thorough
+//@ unwind: 2
+//@ encodes: Operation::divint; <i16 as TryFrom<Val>>::try_from (Single,Integer arm)
+//@ bounds: all bit patterns of both operands
+//@ harness: c02_divint_si
+//@ prop: C02
+//@ tier: thorough
+//@ unwind: 2
+//@ encodes: Operation::remainder; <i16 as TryFrom<Val>>::try_from (Single,Integer arm)
+//@ bounds: all bit patterns of both operands
+//@ harness: c02_remainder_si
+pair_harness!(c02_sum_si, c02_subtract_si, c02_multiply_si, c02_divide_si, c02_divint_si, c02_remainder_si, 1, 0);
+
+//@ prop: C02
+//@ tier: quick
+//@ unwind: 2
+//@ encodes: Operation::sum (Single,Single arm)
+//@ bounds: all bit patterns of both operands
+//@ harness: c02_sum_ss
+//@ prop: C02
+//@ tier: quick
+//@ unwind: 2
+//@ encodes: Operation::subtract (Single,Single arm)
+//@ bounds: all bit patterns of both operands
+//@ harness: c02_subtract_ss
+//@ prop: C02
+//@ tier: quick
+//@ unwind: 2
+//@ encodes: Operation::multiply (Single,Single arm)
+//@ bounds: all bit patterns of both operands
+//@ harness: c02_multiply_ss
+//@ prop: C02
+//@ tier: thorough
+//@ unwind: 7
+//@ encodes: Operation::divide (Single,Single arm)
+//@ bounds: dividend: all bit patterns; divisor: the 5 concrete values 0, 1, -2, 3(.5/.25), 10(.5/.25) of the right type
+//@ harness: c02_divide_ss
+//@ prop: C02
+//@ tier: thorough
+//@ unwind: 2
+//@ encodes: Operation::divint; <i16 as TryFrom<Val>>::try_from (Single,Single arm)
+//@ bounds: all bit patterns of both operands
+//@ harness: c02_divint_ss
+//@ prop: C02
+//@ tier: thorough
+//@ unwind: 2
+//@ encodes: Operation::remainder; <i16 as TryFrom<Val>>::try_from (Single,Single arm)
+//@ bounds: all bit patterns of both operands
+//@ harness: c02_remainder_ss
+pair_harness!(c02_sum_ss, c02_subtract_ss, c02_multiply_ss, c02_divide_ss, c02_divint_ss, c02_remainder_ss, 1, 1);
+
+//@ prop: C02
+//@ tier: quick
+//@ unwind: 2
+//@ encodes: Operation::sum (Single,Double arm)
+//@ bounds: all bit patterns of both operands
+//@ harness: c02_sum_sd
+//@ prop: C02
+//@ tier: quick
+//@ unwind: 2
+//@ encodes: Operation::subtract (Single,Double arm)
+//@ bounds: all bit patterns of both operands
+//@ harness: c02_subtract_sd
+//@ prop: C02
+//@ tier: thorough
+//@ unwind: 2
+//@ encodes: Operation::multiply (Single,Double arm)
+//@ bounds: all bit patterns of both operands
+//@ harness: c02_multiply_sd
+//@ prop: C02
+//@ tier: thorough
+//@ unwind: 7
+//@ encodes: Operation::divide (Single,Double arm)
+//@ bounds: dividend: all bit patterns; divisor: the 5 concrete values 0, 1, -2, 3(.5/.25), 10(.5/.25) of the right type
+//@ harness: c02_divide_sd
+//@ prop: C02
+//@ tier: thorough
+//@ unwind: 2
+//@ encodes: Operation::divint; <i16 as TryFrom<Val>>::try_from (Single,Double arm)
+//@ bounds: all bit patterns of both operands
+//@ harness: c02_divint_sd
+//@ prop: C02
+//@ tier: thorough
+//@ unwind: 2
+//@ encodes: Operation::remainder; <i16 as TryFrom<Val>>::try_from (Single,Double arm)
+//@ bounds: all bit patterns of both operands
+//@ harness: c02_remainder_sd
+pair_harness!(c02_sum_sd, c02_subtract_sd, c02_multiply_sd, c02_divide_sd, c02_divint_sd, c02_remainder_sd, 1, 2);
+
+//@ prop: C02
+//@ tier: quick
+//@ unwind: 2
+//@ encodes: Operation::sum (Double,Integer arm)
+//@ bounds: all bit patterns of both operands
+//@ harness: c02_sum_di
+//@ prop: C02
+//@ tier: quick
+//@ unwind: 2
+//@ encodes: Operation::subtract (Double,Integer arm)
+//@ bounds: all bit patterns of both operands
+//@ harness: c02_subtract_di
+//@ prop: C02
+//@ tier: thorough
+//@ unwind: 2
+//@ encodes: Operation::multiply (Double,Integer arm)
+//@ bounds: all bit patterns of both operands
+//@ harness: c02_multiply_di
+//@ prop: C02
+//@ tier: thorough
+//@ unwind: 7
+//@ encodes: Operation::divide (Double,Integer arm)
+//@ bounds: dividend: all bit patterns; divisor: the 5 concrete values 0, 1, -2, 3(.5/.25), 10(.5/.25) of the right type
+//@ harness: c02_divide_di
+//@ prop: C02
+//@ tier: thorough
+//@ unwind: 2
+//@ encodes: Operation::divint; <i16 as TryFrom<Val>>::try_from (Double,Integer arm)
+//@ bounds: all bit patterns of both operands
+//@ harness: c02_divint_di
+//@ prop: C02
+//@ tier: thorough
+//@ unwind: 2
+//@ encodes: Operation::remainder; <i16 as TryFrom<Val>>::try_from (Double,Integer arm)
+//@ bounds: all bit patterns of both operands
+//@ harness: c02_remainder_di
+pair_harness!(c02_sum_di, c02_subtract_di, c02_multiply_di, c02_divide_di, c02_divint_di, c02_remainder_di, 2, 0);
+
+//@ prop: C02
+//@ tier: quick
+//@ unwind: 2
+//@ encodes: Operation::sum (Double,Single arm)
+//@ bounds: all bit patterns of both operands
+//@ harness: c02_sum_ds
+//@ prop: C02
+//@ tier: quick
+//@ unwind: 2
+//@ encodes: Operation::subtract (Double,Single arm)
+//@ bounds: all bit patterns of both operands
+//@ harness: c02_subtract_ds
+//@ prop: C02
+//@ tier: thorough
+//@ unwind: 2
+//@ encodes: Operation::multiply (Double,Single arm)
+//@ bounds: all bit patterns of both operands
+//@ harness: c02_multiply_ds
+//@ prop: C02
+//@ tier: thorough
+//@ unwind: 7
+//@ encodes: Operation::divide (Double,Single arm)
+//@ bounds: dividend: all bit patterns; divisor: the 5 concrete values 0, 1, -2, 3(.5/.25), 10(.5/.25) of the right type
+//@ harness: c02_divide_ds
+//@ prop: C02
+//@ tier: thorough
+//@ unwind: 2
+//@ encodes: Operation::divint; <i16 as TryFrom<Val>>::try_from (Double,Single arm)
+//@ bounds: all bit patterns of both operands
+//@ harness: c02_divint_ds
+//@ prop: C02
+//@ tier: thorough
+//@ unwind: 2
+//@ encodes: Operation::remainder; <i16 as TryFrom<Val>>::try_from (Double,Single arm)
+//@ bounds: all bit patterns of both operands
+//@ harness: c02_remainder_ds
+pair_harness!(c02_sum_ds, c02_subtract_ds, c02_multiply_ds, c02_divide_ds, c02_divint_ds, c02_remainder_ds, 2, 1);
+
+//@ prop: C02
+//@ tier: quick
+//@ unwind: 2
+//@ encodes: Operation::sum (Double,Double arm)
+//@ bounds: all bit patterns of both operands
+//@ harness: c02_sum_dd
+//@ prop: C02
+//@ tier: quick
+//@ unwind: 2
+//@ encodes: Operation::subtract (Double,Double arm)
+//@ bounds: all bit patterns of both operands
+//@ harness: c02_subtract_dd
+//@ prop: C02
+//@ tier: thorough
+//@ unwind: 2
+//@ encodes: Operation::multiply (Double,Double arm)
+//@ bounds: all bit patterns of both operands
+//@ harness: c02_multiply_dd
+//@ prop: C02
+//@ tier: thorough
+//@ unwind: 7
+//@ encodes: Operation::divide (Double,Double arm)
+//@ bounds: dividend: all bit patterns; divisor: the 5 concrete values 0, 1, -2, 3(.5/.25), 10(.5/.25) of the right type
+//@ harness: c02_divide_dd
+//@ prop: C02
+//@ tier: thorough
+//@ unwind: 2
+//@ encodes: Operation::divint; <i16 as TryFrom<Val>>::try_from (Double,Double arm)
+//@ bounds: all bit patterns of both operands
+//@ harness: c02_divint_dd
+//@ prop: C02
+//@ tier: thorough
+//@ unwind: 2
+//@ encodes: Operation::remainder; <i16 as TryFrom<Val>>::try_from (Double,Double arm)
+//@ bounds: all bit patterns of both operands
+//@ harness: c02_remainder_dd
+pair_harness!(c02_sum_dd, c02_subtract_dd, c02_multiply_dd, c02_divide_dd, c02_divint_dd, c02_remainder_dd, 2, 2);
+
+//@ prop: C02
+//@ tier: quick
+//@ unwind: 18
+//@ encodes: Operation::power (result type of every numeric arm; value only for Integer^non-negative Integer under C08)
+//@ bounds: both operands any of Integer/Single/Double with all bit patterns
+//@ outside: the value of powf/powi (libm calls, over-approximated by CBMC)
+vk_harness!(c02_power_types, {
+    let (l, r) = (any_n(), any_n());
+    let got = Operation::power(l.val(), r.val());
+    let rank = if l.rank() > r.rank() { l.rank() } else { r.rank() };
+    match (rank, got) {
+        (0, Ok(Val::Integer(_))) => vk_check!(matches!(r, N::I(e) if e >= 0), "C02: Integer result of ^ needs a non-negative Integer exponent"),
+        (0, Ok(Val::Single(_))) => vk_check!(matches!(r, N::I(e) if e < 0), "C02: Integer ^ Integer yields Single only for a negative exponent"),
+        (0, Err(e)) => vk_check!(ec::code_of(&e) == ec::OVERFLOW, "C02: Integer ^ Integer may only fail with OVERFLOW"),
+        (1, Ok(Val::Single(_))) => {}
+        (2, Ok(Val::Double(_))) => {}
+        _ => vk_check!(false, "C02: '^' result type is not the promoted operand type"),
+    }
+    vk_cover!(rank == 2, "reach: power double");
+});
+
+fn check_int_op(got: Result<Val>, l: N, r: N, f: fn(i16, i16) -> Option<i16>, zero_div: bool) {
+    match (l.int(), r.int()) {
+        (Some(a), Some(b)) => {
+            if zero_div && b == 0 {
+                match got {
+                    Err(e) => vk_check!(ec::code_of(&e) == ec::DIVISION_BY_ZERO, "C02: zero divisor must be DIVISION BY ZERO"),
+                    Ok(_) => vk_check!(false, "C02: zero divisor returned a value"),
+                }
+                return;
+            }
+            match (f(a, b), got) {
+                (Some(x), Ok(Val::Integer(y))) => vk_check!(x == y, "C02: 16-bit Integer operator result differs from the documented one"),
+                (None, Err(e)) => vk_check!(ec::code_of(&e) == ec::OVERFLOW, "C02: out-of-range 16-bit result must be OVERFLOW"),
+                _ => vk_check!(false, "C02: 16-bit Integer operator: wrong result kind"),
+            }
+        }
+        _ => match got {
+            // an operand that does not floor into -32768..32767
+            Err(e) => vk_check!(ec::code_of(&e) == ec::OVERFLOW, "C02: operand out of Integer range must be OVERFLOW"),
+            Ok(_) => vk_check!(false, "C02: operand out of Integer range was silently accepted"),
+        },
+    }
+}
+
+macro_rules! int_op_harness {
+    ($name:ident, $func:path, $zero_div:expr, $f:expr) => {
+        vk_harness!($name, {
+            let (l, r) = (any_n(), any_n());
+            let got = $func(l.val(), r.val());
+            vk_cover!(got.is_ok(), "reach: int op ok");
+            vk_cover!(got.is_err(), "reach: int op err");
+            check_int_op(got, l, r, $f, $zero_div);
+        });
+    };
+}
+
+
+// Quick-tier companion of the pair harnesses above for `* / \\ MOD`: the left operand symbolic over its whole type, the right one drawn
+// from a concrete set. Constant operands let CBMC fold the multiplier/divider circuits, so all nine type
+// pairs finish in about a minute each; the symbolic-by-symbolic versions are the thorough tier.
+const CI: [i16; 5] = [0, 1, -2, 3, 32767];
+const CS: [f32; 5] = [0.0, 1.0, -2.0, 3.5, 1e10];
+const CD: [f64; 5] = [0.0, 1.0, -2.0, 3.25, 1e100];
+fn const_of(kind: u8, i: usize) -> N {
+    match kind {
+        0 => N::I(CI[i]),
+        1 => N::S(CS[i]),
+        _ => N::D(CD[i]),
+    }
+}
+fn muldiv_checks(l: N, r: N) {
+    check_arith(Operation::multiply(l.val(), r.val()), l, r, l.f32() * r.f32(), l.f64() * r.f64());
+    check_divide(Operation::divide(l.val(), r.val()), l, r);
+    check_int_op(Operation::divint(l.val(), r.val()), l, r, ref_divint, true);
+    check_int_op(Operation::remainder(l.val(), r.val()), l, r, ref_rem, true);
+}
+macro_rules! pairc_harness {
+    ($name:ident, $lk:expr, $rk:expr) => {
+        vk_harness!($name, {
+            let mut i = 2;
+            while i < 4 {
+                muldiv_checks(any_of($lk), const_of($rk, i));
+                i += 1;
+            }
+            vk_cover!(true, "reach: muldiv const");
+        });
+    };
+}
+//@ prop: C02
+//@ tier: quick
+//@ unwind: 7
+//@ encodes: Operation::multiply, divide, divint, remainder (Integer,Integer arms); <i16 as TryFrom<Val>>::try_from
+//@ bounds: left operand all bit patterns of its type, right operand one of the concrete values -2 and 3 / 3.5 / 3.25 of its type
+//@ harness: c02_muldiv_c_ii
+pairc_harness!(c02_muldiv_c_ii, 0, 0);
+
+//@ prop: C02
+//@ tier: quick
+//@ unwind: 7
+//@ encodes: Operation::multiply, divide, divint, remainder (Integer,Single arms); <i16 as TryFrom<Val>>::try_from
+//@ bounds: left operand all bit patterns of its type, right operand one of the concrete values -2 and 3 / 3.5 / 3.25 of its type
+//@ harness: c02_muldiv_c_is
+pairc_harness!(c02_muldiv_c_is, 0, 1);
+
+//@ prop: C02
+//@ tier: quick
+//@ unwind: 7
+//@ encodes: Operation::multiply, divide, divint, remainder (Integer,Double arms); <i16 as TryFrom<Val>>::try_from
+//@ bounds: left operand all bit patterns of its type, right operand one of the concrete values -2 and 3 / 3.5 / 3.25 of its type
+//@ harness: c02_muldiv_c_id
+pairc_harness!(c02_muldiv_c_id, 0, 2);
+
+//@ prop: C02
+//@ tier: quick
+//@ unwind: 7
+//@ encodes: Operation::multiply, divide, divint, remainder (Single,Integer arms); <i16 as TryFrom<Val>>::try_from
+//@ bounds: left operand all bit patterns of its type, right operand one of the concrete values -2 and 3 / 3.5 / 3.25 of its type
+//@ harness: c02_muldiv_c_si
+pairc_harness!(c02_muldiv_c_si, 1, 0);
+
+//@ prop: C02
+//@ tier: quick
+//@ unwind: 7
+//@ encodes: Operation::multiply, divide, divint, remainder (Single,Single arms); <i16 as TryFrom<Val>>::try_from
+//@ bounds: left operand all bit patterns of its type, right operand one of the concrete values -2 and 3 / 3.5 / 3.25 of its type
+//@ harness: c02_muldiv_c_ss
+pairc_harness!(c02_muldiv_c_ss, 1, 1);
+
+//@ prop: C02
+//@ tier: quick
+//@ unwind: 7
+//@ encodes: Operation::multiply, divide, divint, remainder (Single,Double arms); <i16 as TryFrom<Val>>::try_from
+//@ bounds: left operand all bit patterns of its type, right operand one of the concrete values -2 and 3 / 3.5 / 3.25 of its type
+//@ harness: c02_muldiv_c_sd
+pairc_harness!(c02_muldiv_c_sd, 1, 2);
+
+//@ prop: C02
+//@ tier: quick
+//@ unwind: 7
+//@ encodes: Operation::multiply, divide, divint, remainder (Double,Integer arms); <i16 as TryFrom<Val>>::try_from
+//@ bounds: left operand all bit patterns of its type, right operand one of the concrete values -2 and 3 / 3.5 / 3.25 of its type
+//@ harness: c02_muldiv_c_di
+pairc_harness!(c02_muldiv_c_di, 2, 0);
+
+//@ prop: C02
+//@ tier: quick
+//@ unwind: 7
+//@ encodes: Operation::multiply, divide, divint, remainder (Double,Single arms); <i16 as TryFrom<Val>>::try_from
+//@ bounds: left operand all bit patterns of its type, right operand one of the concrete values -2 and 3 / 3.5 / 3.25 of its type
+//@ harness: c02_muldiv_c_ds
+pairc_harness!(c02_muldiv_c_ds, 2, 1);
+
+//@ prop: C02
+//@ tier: quick
+//@ unwind: 7
+//@ encodes: Operation::multiply, divide, divint, remainder (Double,Double arms); <i16 as TryFrom<Val>>::try_from
+//@ bounds: left operand all bit patterns of its type, right operand one of the concrete values -2 and 3 / 3.5 / 3.25 of its type
+//@ harness: c02_muldiv_c_dd
+pairc_harness!(c02_muldiv_c_dd, 2, 2);
+
+//@ prop: C02
+//@ tier: quick
+//@ unwind: 2
+//@ encodes: Operation::and; <i16 as TryFrom<Val>>::try_from
+//@ bounds: both operands any of Integer/Single/Double with all bit patterns
+int_op_harness!(c02_and_matrix, Operation::and, false, |a, b| Some(a & b));
+
+//@ prop: C02
+//@ tier: quick
+//@ unwind: 2
+//@ encodes: Operation::or; <i16 as TryFrom<Val>>::try_from
+//@ bounds: both operands any of Integer/Single/Double with all bit patterns
+int_op_harness!(c02_or_matrix, Operation::or, false, |a, b| Some(a | b));
+
+//@ prop: C02
+//@ tier: quick
+//@ unwind: 2
+//@ encodes: Operation::xor; <i16 as TryFrom<Val>>::try_from
+//@ bounds: both operands any of Integer/Single/Double with all bit patterns
+int_op_harness!(c02_xor_matrix, Operation::xor, false, |a, b| Some(a ^ b));
+
+//@ prop: C02
+//@ tier: quick
+//@ unwind: 18
+//@ encodes: Operation::imp; <i16 as TryFrom<Val>>::try_from
+//@ bounds: both operands any of Integer/Single/Double with all bit patterns
+int_op_harness!(c02_imp_matrix, Operation::imp, false, |a, b| {
+    // truth table of the manual, bit by bit: X IMP Y is 0 only for X=1,Y=0
+    let mut out: u16 = 0;
+    let mut i = 0;
+    while i < 16 {
+        let x = (a as u16 >> i) & 1;
+        let y = (b as u16 >> i) & 1;
+        let bit = if x == 1 && y == 0 { 0 } else { 1 };
+        out |= bit << i;
+        i += 1;
+    }
+    Some(out as i16)
+});
+
+//@ prop: C02
+//@ tier: quick
+//@ unwind: 18
+//@ encodes: Operation::eqv; <i16 as TryFrom<Val>>::try_from
+//@ bounds: both operands any of Integer/Single/Double with all bit patterns
+int_op_harness!(c02_eqv_matrix, Operation::eqv, false, |a, b| {
+    let mut out: u16 = 0;
+    let mut i = 0;
+    while i < 16 {
+        let x = (a as u16 >> i) & 1;
+        let y = (b as u16 >> i) & 1;
+        let bit = if x == y { 1 } else { 0 };
+        out |= bit << i;
+        i += 1;
+    }
+    Some(out as i16)
+});
+
+//@ prop: C02
+//@ tier: quick
+//@ unwind: 2
+//@ encodes: Operation::not; Operation::negate (Single/Double arms)
+//@ bounds: operand any of Integer/Single/Double with all bit patterns
+vk_harness!(c02_unary_matrix, {
+    let v = any_n();
+    match (v.int(), Operation::not(v.val())) {
+        (Some(a), Ok(Val::Integer(x))) => vk_check!(x == !a, "C02: NOT must complement the floor-converted 16-bit Integer"),
+        (None, Err(e)) => vk_check!(ec::code_of(&e) == ec::OVERFLOW, "C02: NOT of an out-of-range operand must be OVERFLOW"),
+        _ => vk_check!(false, "C02: NOT: wrong result kind"),
+    }
+    match (v, Operation::negate(v.val())) {
+        (N::I(_), _) => {} // C08
+        (N::S(x), Ok(Val::Single(y))) => vk_check!(same32(-x, y), "C02: unary minus on Single"),
+        (N::D(x), Ok(Val::Double(y))) => vk_check!(same64(-x, y), "C02: unary minus on Double"),
+        _ => vk_check!(false, "C02: unary minus must keep the operand type"),
+    }
+    vk_cover!(true, "reach: unary");
+});
+
+/// Relational operators: Integer 0 or -1; the comparison is carried out at the promoted type.
+fn rel_truth(l: N, r: N, lt: bool, eq_ok: bool) -> bool {
+    let rank = if l.rank() > r.rank() { l.rank() } else { r.rank() };
+    match rank {
+        0 => {
+            let (a, b) = (l.int().unwrap_or(0), r.int().unwrap_or(0));
+            if lt { a < b || (eq_ok && a == b) } else { false }
+        }
+        1 => {
+            let (a, b) = (l.f32(), r.f32());
+            a < b || (eq_ok && a == b)
+        }
+        _ => {
+            let (a, b) = (l.f64(), r.f64());
+            a < b || (eq_ok && a == b)
+        }
+    }
+}
+fn check_rel(got: Result<Val>, truth: bool) {
+    match got {
+        Ok(Val::Integer(n)) => {
+            vk_check!(n == 0 || n == -1, "C02: relational operators yield exactly 0 or -1");
+            vk_check!((n == -1) == truth, "C02: relational operator result differs from the comparison at the promoted type");
+        }
+        _ => vk_check!(false, "C02: relational operator on numbers must yield an Integer"),
+    }
+}
+
+//@ prop: C02
+//@ tier: quick
+//@ unwind: 2
+//@ encodes: Operation::less; Operation::greater; Operation::less_equal; Operation::greater_equal; Operation::less_bool; Operation::less_equal_bool
+//@ bounds: both operands any of Integer/Single/Double with all bit patterns
+vk_harness!(c02_order_matrix, {
+    let (l, r) = (any_n(), any_n());
+    check_rel(Operation::less(l.val(), r.val()), rel_truth(l, r, true, false));
+    check_rel(Operation::greater(l.val(), r.val()), rel_truth(r, l, true, false));
+    check_rel(Operation::less_equal(l.val(), r.val()), rel_truth(l, r, true, true));
+    check_rel(Operation::greater_equal(l.val(), r.val()), rel_truth(r, l, true, true));
+    vk_cover!(true, "reach: order");
+});
+
+//@ prop: C02
+//@ tier: quick
+//@ unwind: 2
+//@ encodes: Operation::equal; Operation::not_equal; Operation::equal_bool
+//@ bounds: both operands any of Integer/Single/Double with all bit patterns
+//@ outside: the tolerance the implementation applies to nearly-equal floating values (only exact equality, clear inequality and 0/-1 are asserted)
+vk_harness!(c02_equality_matrix, {
+    let (l, r) = (any_n(), any_n());
+    let eq = Operation::equal(l.val(), r.val());
+    let ne = Operation::not_equal(l.val(), r.val());
+    let (e, n) = match (eq, ne) {
+        (Ok(Val::Integer(e)), Ok(Val::Integer(n))) => (e, n),
+        _ => {
+            vk_check!(false, "C02: = and <> on numbers must yield Integers");
+            return;
+        }
+    };
+    vk_check!(e == 0 || e == -1, "C02: = yields exactly 0 or -1");
+    vk_check!(n == 0 || n == -1, "C02: <> yields exactly 0 or -1");
+    vk_check!(e != n, "C02: <> must be the complement of =");
+    let rank = if l.rank() > r.rank() { l.rank() } else { r.rank() };
+    match rank {
+        0 => vk_check!((e == -1) == (l.int() == r.int()), "C02: Integer = Integer must be exact"),
+        1 => {
+            let (a, b) = (l.f32(), r.f32());
+            if a.is_finite() && b.is_finite() {
+                if a == b {
+                    vk_check!(e == -1, "C02: equal Single values must compare equal");
+                }
+                if (a - b).abs() > 0.001 {
+                    vk_check!(e == 0, "C02: clearly different Single values must not compare equal");
+                }
+            }
+        }
+        _ => {
+            let (a, b) = (l.f64(), r.f64());
+            if a.is_finite() && b.is_finite() {
+                if a == b {
+                    vk_check!(e == -1, "C02: equal Double values must compare equal");
+                }
+                if (a - b).abs() > 0.001 {
+                    vk_check!(e == 0, "C02: clearly different Double values must not compare equal");
+                }
+            }
+        }
+    }
+    vk_cover!(e == -1 && rank == 2, "reach: equal doubles");
+});
+
+/// A non-numeric stack value: a string, or one of the two control frames.
+fn any_non_numeric() -> Val {
+    match vk::any_below(3) {
+        0 => Val::String("A".into()),
+        1 => Val::Return(vk::any_usize()),
+        _ => Val::Next(vk::any_usize()),
+    }
+}
+/// `overflow_ok`: the numeric operand does not convert to a 16-bit Integer and the operator converts its operands
+/// (\\ MOD AND OR XOR IMP EQV) — then OVERFLOW for that operand is as legitimate a BASIC error as TYPE MISMATCH.
+fn expect_mismatch(got: Result<Val>, overflow_ok: bool) {
+    match got {
+        Err(e) => {
+            let c = ec::code_of(&e);
+            vk_check!(c == ec::TYPE_MISMATCH || (overflow_ok && c == ec::OVERFLOW), "C02: a non-numeric operand must raise TYPE MISMATCH")
+        }
+        Ok(_) => vk_check!(false, "C02: a non-numeric operand was accepted by a numeric operator"),
+    }
+}
+
+fn apply_op(which: u8, l: Val, r: Val) -> Result<Val> {
+    match which {
+        0 => Operation::power(l, r),
+        1 => Operation::multiply(l, r),
+        2 => Operation::divide(l, r),
+        3 => Operation::divint(l, r),
+        4 => Operation::remainder(l, r),
+        5 => Operation::sum(l, r),
+        6 => Operation::subtract(l, r),
+        7 => Operation::equal(l, r),
+        8 => Operation::not_equal(l, r),
+        9 => Operation::less(l, r),
+        10 => Operation::less_equal(l, r),
+        11 => Operation::greater(l, r),
+        12 => Operation::greater_equal(l, r),
+        13 => Operation::and(l, r),
+        14 => Operation::or(l, r),
+        15 => Operation::xor(l, r),
+        16 => Operation::imp(l, r),
+        _ => Operation::eqv(l, r),
+    }
+}
+fn mismatch_group(from: u8, to: u8) {
+    let left_bad = vk::any_bool();
+    let bad_kind = vk::any_below(3);
+    let good = any_n();
+    let mut which = from;
+    while which < to {
+        let bad = match bad_kind {
+            0 => Val::String("A".into()),
+            1 => Val::Return(7),
+            _ => Val::Next(9),
+        };
+        let (l, r) = if left_bad { (bad, good.val()) } else { (good.val(), bad) };
+        let converts = which == 3 || which == 4 || which >= 13;
+        expect_mismatch(apply_op(which, l, r), converts && good.int().is_none());
+        which += 1;
+    }
+}
+
+//@ prop: C02
+//@ tier: quick
+//@ unwind: 8
+//@ encodes: Operation::power/multiply/divide/divint/remainder/sum with one non-numeric operand (String "A", Return, Next) on either side
+//@ bounds: numeric side any of Integer/Single/Double with all bit patterns; non-numeric side fixed representatives
+vk_harness!(c02_type_mismatch_a, {
+    mismatch_group(0, 6);
+    vk_cover!(true, "reach: mismatch a");
+});
+
+//@ prop: C02
+//@ tier: quick
+//@ unwind: 8
+//@ encodes: Operation::subtract/equal/not_equal/less/less_equal/greater with one non-numeric operand on either side
+//@ bounds: numeric side any of Integer/Single/Double with all bit patterns; non-numeric side fixed representatives
+vk_harness!(c02_type_mismatch_b, {
+    mismatch_group(6, 12);
+    vk_cover!(true, "reach: mismatch b");
+});
+
+//@ prop: C02
+//@ tier: quick
+//@ unwind: 8
+//@ encodes: Operation::greater_equal/and/or/xor/imp/eqv with one non-numeric operand on either side
+//@ bounds: numeric side any of Integer/Single/Double with all bit patterns; non-numeric side fixed representatives
+vk_harness!(c02_type_mismatch_c, {
+    mismatch_group(12, 18);
+    vk_cover!(true, "reach: mismatch c");
+});
